@@ -42,6 +42,10 @@ func freshLike(a *Sess, o Opts) *Sess {
 
 // C15: Reset returns the world to the behaviour of a fresh one.
 func caseC15(c *Ctx) {
+	if c.Mode == "big" {
+		caseBig(c)
+		return
+	}
 	cfg := GenCfg(c.R, 0)
 	p := DefaultProfile()
 	p.Steps = 70 + c.R.Intn(60)
